@@ -45,9 +45,9 @@ ANCHORS = ['pfhedge.nn.functional:bs_european_delta',
            'pfhedge.autogreek:theta',
            'pfhedge._utils.parse:parse_spot',
            'pfhedge._utils.parse:parse_volatility']
-DECIDING = ["greek.args_untouched", "greek.alias_invariant", "module.forward_is_delta", "greek.european", "greek.european_binary", "greek.american_binary", "greek.lookback", "autogreek.delta", "autogreek.gamma",
+DECIDING = ["greek.broadcast_invariant", "greek.args_untouched", "greek.alias_invariant", "module.forward_is_delta", "greek.european", "greek.european_binary", "greek.american_binary", "greek.lookback", "autogreek.delta", "autogreek.gamma",
             "autogreek.vega", "autogreek.theta", "autogreek.gamma_from_delta"]
-REQUIRED_BRANCHES = ["t!=1", "K!=1", "put", "american_binary.reached_spot_below", "via.module", "via.functional", "alias.spot_at_running_max", "autogreek.create_graph"]
+REQUIRED_BRANCHES = ["t!=1", "K!=1", "put", "american_binary.reached_spot_below", "via.module", "via.functional", "alias.spot_at_running_max", "autogreek.create_graph", "greek.broadcast"]
 
 N = 24
 
@@ -102,6 +102,8 @@ def gen(rng):
     u = rng.random(N)
     m = np.where(u < 0.3, s + rng.uniform(0.02, 0.4, N), np.where(u < 0.6, np.maximum(s + 0.02, rng.uniform(-0.3, 0.3, N)), np.maximum(s + 0.05, 0.0 + rng.uniform(0, 0.2, N))))
     m = np.maximum(m, s + 0.02)
+    # the running maximum sitting exactly on the strike with the spot below it (option struck at the initial spot, spot has fallen since)
+    m = np.where((rng.random(N) < 0.1) & (s < -0.03), 0.0, m)
     return t(s, F64), t(tt, F64), t(v, F64), t(m, F64)
 
 
@@ -196,6 +198,45 @@ def drv_bs(ctx, k, rng):
     # (float32) there, so the derivative is taken at a spot shifted by up to 6e-8 relatively - visible where gamma * S / delta is large
     K_held = float(torch.as_tensor(K))
     S_held = S * (K_held / K)
+    # broadcasting: a volatility / maturity shared by all points (0-dim or one element) gives, point by point, what the full-shape call gives
+    if rng.random() < 0.4:
+        ctx.seen("greek.broadcast_invariant")
+        ctx.branch("greek.broadcast")
+        j = int(rng.integers(N))
+        form = pick(rng, ["0dim", "one"])
+        which = pick(rng, ["volatility", "time_to_maturity", "both"])
+        vb = (v[j] if form == "0dim" else v[j:j + 1]).clone() if which in ("volatility", "both") else v
+        tb = (tt[j] if form == "0dim" else tt[j:j + 1]).clone() if which in ("time_to_maturity", "both") else tt
+        vf = v[j].expand(N).clone() if which in ("volatility", "both") else v
+        tf = tt[j].expand(N).clone() if which in ("time_to_maturity", "both") else tt
+        with torch.enable_grad():
+            for name in ("delta", "gamma", "vega", "theta"):
+                if via == "module" and path and name in ("vega", "theta"):
+                    # the path-dependent modules differentiate their price with respect to the caller's own volatility / maturity tensor: for a shared
+                    # (0-dim / one-element) tensor autograd returns the sum over the points. The modules document equal shapes only (DESIGN 8.2).
+                    ctx.skipped("greek.broadcast_invariant", "module_greek_by_autograd_wrt_shared_tensor")
+                    continue
+                if via == "module":
+                    fn = getattr(mod, name)
+                    a_, b_ = (fn(s, m, tb, vb), fn(s, m, tf, vf)) if path else (fn(s, tb, vb), fn(s, tf, vf))
+                else:
+                    if kind == "european":
+                        fn = (lambda t_, v_: F.bs_european_delta(s, t_, v_, call=call)) if name == "delta" else (lambda t_, v_, nm=name: getattr(F, "bs_european_" + nm)(s, t_, v_, strike=K))
+                    elif kind == "european_binary":
+                        fn = lambda t_, v_, nm=name: getattr(F, "bs_european_binary_" + nm)(s, t_, v_, call=call, strike=K)  # noqa: E731
+                    else:
+                        fn = lambda t_, v_, nm=name: getattr(F, f"bs_{kind}_" + nm)(s, m, t_, v_, strike=K)  # noqa: E731
+                    a_, b_ = fn(tb, vb), fn(tf, vf)
+                a_, b_ = a_.detach(), b_.detach()
+                if a_.shape != b_.shape or not bool((((a_ - b_).abs() <= 1e-9 * (b_.abs() + 1)) | (torch.isnan(a_) & torch.isnan(b_))).all()):
+                    ctx.violation("greek.broadcast_invariant", "broadcast", f"{kind} {name} ({via}) with a shared {which} given as a {form} tensor: shape "
+                                  f"{tuple(a_.shape)} / values differ from the full-shape call (shape {tuple(b_.shape)})", sig=(kind, via, name, which, form),
+                                  shared=a_.reshape(-1)[:4], full=b_.reshape(-1)[:4])
+                    break
+            else:
+                ctx.ok("greek.broadcast_invariant", sig=(kind, via, which, form))
+        for z in (s, tt, v, m):
+            z.requires_grad_(False)
     with torch.no_grad():
         hS = 2e-3 * S
         est, dis = richardson(price_S, S, hS, 1)
